@@ -227,6 +227,19 @@ def main(argv):
         solver_s = sum((ph.get("solver_s") or 0) for ph in res["per_harness"].values())
         bh = {h: why for h, why in P.BOUNDED_HARNESSES.items() if any(x.endswith("::" + h) for x in res["per_harness"])}
         n_bounded = len([o for o in obl if o["harness"].split("::")[-1] in bh])
+        stubs = sorted(set(re.sub(r"\s+", "", m) for m in re.findall(r"- Stub: ([^\n]+)", out)))
+        cov["stubs_applied"] = {"n": len(stubs), "list": stubs[:60],
+                                "meaning": "each stub is an ASSUMED contract or an environment wrapper: atomics = rely/guarantee wrappers around the real operation; k_*/rec_*/c_* = callee contracts (recorded or performed abstractly); s_cs/s_global_epoch/s_defer_unchecked/k_defer_destroy = A-EBR; s_vec_new = Kani Vec::new workaround; s_unpin_unreachable = checked cut-off"}
+        n_assume = 0
+        for m in prop["modules"]:
+            try:
+                n_assume += open(os.path.join(VERIF, "kani", m)).read().count("kani::assume(")
+            except OSError:
+                pass
+        cov["assume_statements_in_harness_modules"] = n_assume
+        cov["unchecked"] = ["unsafe code is checked only by CBMC's memory model on the explored configurations (null/dangling/double free/bounds; no aliasing model)",
+                            "machine arithmetic is bit-precise (CBMC), not mathematical; overflow checks are on for the code under contract",
+                            "dependencies (atomic, crossbeam-utils CachePadded/Backoff, scopeguard, memoffset, std) are compiled and executed symbolically, not separately specified, except where stubbed above"]
         cov["bounded_stand_in"] = {"harnesses": bh, "obligations": n_bounded,
                                    "note": "complete for the stated size (unwinding assertions on); a bounded stand-in w.r.t. 'every size', not counted as proved without bound"}
         cov["obligations_proved_without_size_bound"] = len(discharged) - len([o for o in discharged if o["harness"].split("::")[-1] in bh])
